@@ -28,7 +28,9 @@ EXPLANATION = (
     ' '
     "R-C11.8 positions read from PRAGMA foreign_key_list / index_list / index_info rows agree with SQLite's documented layout for the role they are used in (referenced table = 2, referenced column = 4, index name = 1, unique = 2, column name = 2)."
     ' '
-    'hygiene .97: a list filled with tuples of named values and consumed by unpacking uses the names in the same order on both sides (closure consumers included).')
+    'hygiene .97: a list filled with tuples of named values and consumed by unpacking uses the names in the same order on both sides (closure consumers included).'
+    ' '
+    'R-C11.10 all readers of a RenameModel chain take the final name from the same element.')
 NOT_DECIDED = (
     'Absence of dangling references for all signatures and sequences; '
     'foreign-key validity in the database after the generated SQL.')
@@ -588,7 +590,66 @@ def r8_pragma_row_layout(ctx):
     ctx.floor('PRAGMA row columns read by role in db.sqlite3', n_reads, 5)
 
 
+def r10_rename_chain_readers_agree(ctx):
+    """The optimiser records the RenameModel mutations of a model as a chain
+    (built while scanning the batch backwards, so element 0 is the *last*
+    rename and carries the final name).  Every place that reads the final
+    name from a chain (`<info>['mutations'][k].new_model_name`) must use the
+    same element as the RenameModel branch that collapses the chain; another
+    index names an intermediate model, and an AddField(ForeignKey) placed
+    before the chain is lowered against a model that never exists."""
+    ctx.rule('R-C11.10')
+    p = ctx.program
+    f = p.func('mutators.app_mutator', 'AppMutator._process_mutation_batch')
+    from ..util import unit
+    sites = []
+    for fn in unit(ctx, f):
+        idx_of = {}
+        for n in walk_no_nested(fn.node):
+            if isinstance(n, ast.Assign) and len(n.targets) == 1 and \
+                    isinstance(n.targets[0], ast.Name) and \
+                    isinstance(n.value, ast.Subscript):
+                v = n.value
+                k = v.slice
+                if isinstance(k, ast.UnaryOp) and \
+                        isinstance(k.op, ast.USub) and \
+                        isinstance(k.operand, ast.Constant):
+                    kval = -k.operand.value
+                elif isinstance(k, ast.Constant):
+                    kval = k.value
+                else:
+                    continue
+                base = v.value
+                chain = (isinstance(base, ast.Subscript) and
+                         const_str(base.slice) == 'mutations') or (
+                    isinstance(base, ast.Name) and 'rename' in base.id)
+                if chain and isinstance(kval, int):
+                    idx_of.setdefault(n.targets[0].id, []).append((kval, n))
+        for n in walk_no_nested(fn.node):
+            if isinstance(n, ast.Attribute) and n.attr == 'new_model_name' \
+                    and isinstance(n.ctx, ast.Load) and \
+                    isinstance(n.value, ast.Name) and n.value.id in idx_of:
+                for kval, asg in idx_of[n.value.id]:
+                    sites.append((fn, kval, asg))
+    ctx.floor('reads of the final name from a rename chain', len(sites), 2)
+    ks = {k for _f, k, _a in sites}
+    if len(ks) == 1:
+        ctx.ok(f, 'every reader of a rename chain takes the final name from '
+               'element %d' % ks.pop())
+    else:
+        from collections import Counter
+        common = Counter(k for _f, k, _a in sites).most_common(1)[0][0]
+        for fn, k, asg in sites:
+            if k != common:
+                ctx.finding(fn, asg, 'this reader takes the final model name '
+                            'from element %d of the rename chain, the others '
+                            'from element %d: for a chain of two or more '
+                            'RenameModels it sees an intermediate name' % (
+                                k, common), key='chain-index-disagrees')
+
+
 def run(ctx):
+    r10_rename_chain_readers_agree(ctx)
     r8_pragma_row_layout(ctx)
     r7_fk_references_live_column(ctx)
     r6_exact_app_lookup(ctx)
